@@ -90,6 +90,16 @@ type c34Entry struct {
 
 const c34New = 9000
 
+// c34Cli runs a command; a panic of the code under test is reported as an error of the command
+func c34Cli(e *venv, args ...string) (so, se string, err error) {
+	defer func() {
+		if r := recover(); r != nil {
+			err = fmt.Errorf("panic: %v", r)
+		}
+	}()
+	return e.cli(args...)
+}
+
 func c34Scenario(c *vctx, rng *vrng, num int, force string) error {
 	e := c34Venv(c, fmt.Sprintf("s%d", num))
 	defer os.RemoveAll(e.base)
@@ -375,7 +385,7 @@ func c34Scenario(c *vctx, rng *vrng, num int, force string) error {
 	for _, t := range targets {
 		args = append(args, t.String())
 	}
-	_, _, errA := e.cli(args...)
+	_, _, errA := c34Cli(e, args...)
 	_ = os.Chdir(cwd)
 	var opsA []string
 	for _, o := range e.rec.Mods() {
@@ -470,7 +480,7 @@ func c34Scenario(c *vctx, rng *vrng, num int, force string) error {
 
 	// ---- repair snapshots --forget ----
 	e.rec.Reset()
-	_, _, errB := e.cli("repair", "snapshots", "--forget")
+	_, _, errB := c34Cli(e, "repair", "snapshots", "--forget")
 	var opsB []string
 	for _, o := range e.rec.Mods() {
 		switch {
